@@ -79,6 +79,7 @@ class Runner:
         self.iso.new(interchange_level=3, rock_ridge=version)
         self.ops = []
         self.root = Shadow('d', b'\x00')
+        self.midwrite = None
 
     def do(self, op):
         iso, kind = self.iso, op[0]
@@ -107,6 +108,8 @@ class Runner:
         except pycdlibexception.PyCdlibInvalidInput:
             ok = False
         self.ops.append(op)
+        if self.midwrite is not None and self.midwrite.random() < 0.15:
+            iso.write_fp(io.BytesIO())          # an intermediate mastering must not change the state
         return ok
 
 
@@ -190,6 +193,8 @@ def run_history(case):
     rng = random.Random(case['rngseed'] + 17)
     run = Runner(case['version'])
     spec = case['spec']
+    if case['rngseed'] % 3 == 0 and spec[0] in ('random', 'blocks', 'small'):
+        run.midwrite = random.Random(case['rngseed'] + 5)
     if spec[0] == 'small':
         h_small(run, rng)
     elif spec[0] == 'blocks':
@@ -199,10 +204,13 @@ def run_history(case):
     elif spec[0] == 'fill':
         art.fill_scenario(run, rng, spec[1], spec[2])
     elif spec[0] == 'deep':
-        art.deep_scenario(run, rng)
+        if rng.random() < 0.3:
+            art.deep_scenario(run, rng)          # down to depth 7 and everything removed again
         p = ()
-        for k in range(3):
-            run.do(('AddDir', p, b'E%d' % k, art.rr_text(rng, rng.choice([3, 250]))))
+        for k in range(7):                       # directories down to depth 7, files and symlinks at depth 8
+            run.do(('AddDir', p, b'E%d' % k, art.rr_text(rng, rng.choice([3, 180, 250, 400]))))
+            if rng.random() < 0.4:
+                run.do(('AddFile', p, b'F%d.;1' % k, art.rr_text(rng, rng.choice([5, 300])), rng.choice([0, 7, 4096])))
             p = p + (b'E%d' % k,)
         run.do(('AddFile', p, b'DEEP.;1', art.rr_text(rng, 240), 5000))
         run.do(('AddSymlink', p, b'LINK.;1', 'link', '../' * 60 + 'x'))
